@@ -156,7 +156,7 @@ func (x *Exec) run(st *State) {
 		s := work[len(work)-1]
 		work = work[:len(work)-1]
 		for !s.dead {
-			forks := x.step(s)
+			forks := x.stepGuarded(s)
 			if len(forks) > 0 {
 				work = append(work, forks...)
 			}
@@ -166,6 +166,29 @@ func (x *Exec) run(st *State) {
 			bail("path limit %d exceeded in %s", x.limit, x.fnName())
 		}
 	}
+}
+
+// restartWithoutInlining: a contract-less helper turned out to be outside the modelled subset while it was being
+// executed in line; the function is verified again with that helper's calls abstracted (sound: an unknown call
+// over-approximates the helper), so the outcome is failed or discharged obligations instead of "undecided".
+type restartWithoutInlining struct{}
+
+func (x *Exec) stepGuarded(s *State) (forks []*State) {
+	defer func() {
+		if r := recover(); r != nil {
+			if u, ok := r.(unsupported); ok && x.dry == nil && len(s.stack) > 1 && s.stack[1].fn != x.root {
+				if x.eng.inlineFailed == nil {
+					x.eng.inlineFailed = map[*ssa.Function]string{}
+				}
+				if _, seen := x.eng.inlineFailed[s.stack[1].fn]; !seen {
+					x.eng.inlineFailed[s.stack[1].fn] = u.Error()
+					panic(restartWithoutInlining{})
+				}
+			}
+			panic(r)
+		}
+	}()
+	return x.step(s)
 }
 
 func (x *Exec) val(st *State, f *Frame, v ssa.Value) Val {
@@ -724,6 +747,11 @@ func (x *Exec) indexAddr(st *State, f *Frame, i *ssa.IndexAddr) Val {
 		x.bounds(st, i, idx, IntLit(at.Len()))
 		return PtrV{ElemAddr{oa.Ref, idx, at.Elem()}}
 	}
+	if b, ok := base.(Sc); ok && b.T.Sort == SStr {
+		// &b[i] of a byte slice (modelled as a string): readable, not writable
+		x.bounds(st, i, idx, App(SInt, "str.len", b.T))
+		return PtrV{ByteAddr{b.T, idx}}
+	}
 	bail("IndexAddr on %T", base)
 	return nil
 }
@@ -1229,6 +1257,11 @@ func (x *Exec) havocLoop(st *State, f *Frame, lp int) {
 		}
 		f.vals[phi] = st.freshVal(phi.Type(), "loop_"+phi.Comment)
 		st.assumeAllocated(f.vals[phi])
+		// a slice that is only ever built here (literal / make, extended by append) has a backing array
+		// that did not exist when the function was entered
+		if sv, ok := f.vals[phi].(SliceV); ok && st.alloc0 != nil && builtLocally(phi) {
+			st.assume(Or(Eq(sv.Arr, IntLit(0)), Not(Term{fmt.Sprintf("(select %s %s)", st.alloc0.Name, sv.Arr.S), SBool})))
+		}
 	}
 	// visited sets of map iterations advanced inside the loop
 	for v, val := range f.vals {
